@@ -35,7 +35,7 @@ def main():
     known_listed = {k['id']: k for k in known_findings('C06')}
     cases = []
     SEGS = ['', '.', '..', 'a', 'b:c', 'g', 'x', '%2e']
-    n = 30000 if thorough else 5000
+    n = 150000 if thorough else 5000
     for fam in ('uri', 'iri'):
         g = Gen(random.Random(rnd.random()), fam)
         for i in range(n // 2):
